@@ -312,7 +312,14 @@ func init() { h.RegisterReplayer("c04-long", evalC04Long) }
 type C04SlowCase struct {
 	Mode string `json:"mode"`
 	Cut  int    `json:"cut"` // the conversation arrives in two segments, cut here (0: one segment)
+	// Variant "" : ReadTimeout = WriteTimeout = 1 min, Mail/Rcpt take 90 s.
+	// Variant "data": ReadTimeout 1 min, WriteTimeout 10 s, Mail/Rcpt take 40 s, Data/LMTPData take 40 s before they read and
+	// 40 s before they return; the conversation transfers two messages to two recipients.
+	// Variant "fast": the same conversation as "data" with no timeout and no delay (the reference).
+	Variant string `json:"variant,omitempty"`
 }
+
+const c04SlowDataConv = "MAIL FROM:<ok@a.example>\r\nRCPT TO:<ok@b.example>\r\nRCPT TO:<ok2@b.example>\r\nDATA\r\naccept-1\r\nline two\r\n.\r\nNOOP\r\nMAIL FROM:<ok3@a.example>\r\nRCPT TO:<ok4@b.example>\r\nRCPT TO:<ok5@b.example>\r\nBDAT 10\r\naccept-2\r\nBDAT 3 LAST\r\nxyzNOOP\r\nQUIT\r\n"
 
 const c04SlowConv = "MAIL FROM:<ok@a.example> SIZE=10\r\nRCPT TO:<ok@b.example>\r\nRCPT TO:<ok2@b.example> NOTIFY=SUCCESS,FAILURE\r\nNOOP\r\nRSET\r\nMAIL FROM:<ok3@a.example>\r\nQUIT\r\n"
 
@@ -322,6 +329,16 @@ func c04SlowRun(c C04SlowCase) (*h.Obs, string) {
 	cfg.ReadTO, cfg.WriteTO = time.Minute, time.Minute
 	be.Delay = 90 * time.Second // every Mail/Rcpt callback takes longer than the read timeout
 	in := []byte(hello(c.Mode) + c04SlowConv)
+	switch c.Variant {
+	case "data":
+		cfg.WriteTO = 10 * time.Second
+		be.Delay, be.DataDelay = 40*time.Second, 40*time.Second
+		in = []byte(hello(c.Mode) + c04SlowDataConv)
+	case "fast":
+		cfg.ReadTO, cfg.WriteTO = 0, 0
+		be.Delay = 0
+		in = []byte(hello(c.Mode) + c04SlowDataConv)
+	}
 	segs := h.OneSeg(in)
 	if c.Cut > 0 {
 		segs = h.SplitAt(in, c.Cut)
@@ -340,12 +357,20 @@ func c04SlowRun(c C04SlowCase) (*h.Obs, string) {
 func evalC04Slow(c C04SlowCase) *h.Finding {
 	o, got := c04SlowRun(c)
 	desc := fmt.Sprintf("mode=%s: ReadTimeout 1m, every Mail/Rcpt callback takes 90s, the conversation cut after octet %d", c.Mode, c.Cut)
+	if c.Variant == "data" {
+		desc = fmt.Sprintf("mode=%s: ReadTimeout 1m, WriteTimeout 10s, Mail/Rcpt take 40s, Data takes 40s before reading and 40s before returning, two messages, the conversation cut after octet %d", c.Mode, c.Cut)
+	}
 	if f := o.Sanity("c04", desc); f != nil {
 		return f
 	}
-	_, want := c04SlowRun(C04SlowCase{Mode: c.Mode})
+	base := C04SlowCase{Mode: c.Mode}
+	if c.Variant == "data" {
+		// no read ever waits (all input is there), every write is taken at once: a slow backend alone changes nothing
+		base.Variant = "fast"
+	}
+	_, want := c04SlowRun(base)
 	if got != want {
-		return h.F("c04-discipline-differs", "%s: the outcome differs from the same conversation sent in one segment.\n   cut:  %s\n   one:  %s", desc, got, want)
+		return h.F("c04-discipline-differs", "%s: the outcome differs from the reference (one segment; variant data: no timeouts, prompt backend).\n   got:  %s\n   want: %s", desc, got, want)
 	}
 	return nil
 }
@@ -355,6 +380,16 @@ func c04Slow(run *h.Run) {
 		n := len(hello(mode) + c04SlowConv)
 		h.ParallelFor(n, func(k int) {
 			c := C04SlowCase{Mode: mode, Cut: k}
+			f := evalC04Slow(c)
+			run.Eval(true)
+			if f != nil {
+				run.Violate("c04-slow", c, f, func() *h.Finding { return evalC04Slow(c) })
+				run.Outcome("violation:" + f.Sig)
+			}
+		})
+		n = len(hello(mode) + c04SlowDataConv)
+		h.ParallelFor(n, func(k int) {
+			c := C04SlowCase{Mode: mode, Cut: k, Variant: "data"}
 			f := evalC04Slow(c)
 			run.Eval(true)
 			if f != nil {
